@@ -36,6 +36,14 @@ ERROR PATHS (the `except` handlers, read separately -- they decide what a FAILIN
                      os.remove(temp)` -> [Unlink tmp] (Model/Durable.v applies it only while the temp name
                      exists: failed_of).  Any other statement in that handler is Unsupported.
 
+WRITE PATH of the data writer (every method of DataFileWriter other than open / close): the bytes reach the temp file
+through `self._writer.write_batch(...)` only, any number of times, each ONE burst `Write tmp b` of the model
+(gen_data_writer_burst; coq/Model/DurableChunks.v replaces the single Write of gen_data_writer by an arbitrary list of
+bursts).  A durability call anywhere in those methods -- an fsync "every N rows", a helper that syncs, a rename -- makes
+what close() must still flush depend on how much was written: Unsupported, fail closed.  For the same reason a
+durability call of open / close / write_file may sit only under the pinned conditions (which backend, was the writer
+opened): `if <anything else>: os.fsync(fd)` is a call that is sometimes skipped, not the call of the model.
+
 Also pinned (golden order, modelled by hand in Model/Durable.v `commit_body` / `pub_item`):
     Transaction.append_data            _register_inflight(...)  before  write_data_file(...)
     FileManager.create_manifest_file   pre_write_hook(...)      before  storage.write_file(...)
@@ -351,6 +359,64 @@ def _check_error_paths(fn: ast.FunctionDef, where: str, dir_vars: set, temp_vars
     return on_error
 
 
+def _durability_calls_in(fn: ast.AST, writer_close: Optional[str]) -> List[str]:
+    out = []
+    for n in ast.walk(fn):
+        if isinstance(n, ast.Call):
+            nm = _call_name(n)
+            if (nm in MAPPED or (nm.startswith(("os.", "tempfile.", "shutil.")) and nm not in IGNORED_OS and not nm.startswith("os.path."))
+                    or nm == "open" or (writer_close is not None and nm == writer_close)):
+                out.append(nm)
+    return out
+
+
+def _check_guards(fn: ast.FunctionDef, where: str, allowed: set, early_exit_ok: set, writer_close: Optional[str]) -> None:
+    """Durability calls only under the pinned conditions; early `return`s only under the pinned tests.
+    Except handlers (error paths, read by _check_error_paths) are not entered."""
+    def nodes(x: ast.AST):
+        yield x
+        for ch in ast.iter_child_nodes(x):
+            if not isinstance(ch, ast.ExceptHandler):
+                yield from nodes(ch)
+    for n in nodes(fn):
+        if isinstance(n, (ast.If, ast.While)) and _is_write_all_loop(n) is None:
+            test = ast.unparse(n.test)
+            guarded = [c for st in list(n.body) + list(n.orelse) for c in _durability_calls_in(st, writer_close)]
+            helper = [c for st in list(n.body) + list(n.orelse) for x in ast.walk(st)
+                      if isinstance(x, ast.Call) and (c := _call_name(x)).startswith("self._") and c.count(".") == 1]
+            if (guarded or helper) and test not in allowed:
+                raise Unsupported(f"{where}: {(guarded + helper)[0]} under the condition `{test}`: a durability call that is sometimes "
+                                  f"skipped is not the unconditional call of the model")
+            if any(isinstance(x, ast.Return) for st in n.body + n.orelse for x in ast.walk(st)) and test not in early_exit_ok | allowed:
+                raise Unsupported(f"{where}: early return under `{test}` in a publish routine")
+        elif isinstance(n, ast.IfExp) and _durability_calls_in(n, writer_close):
+            raise Unsupported(f"{where}: durability call inside a conditional expression")
+
+
+def _writer_write_path(do: ast.Module) -> List[str]:
+    """The methods of DataFileWriter other than open / close: no durability call; the arrow writer is fed through
+    self._writer.write_batch only.  Returns the model calls of ONE such burst."""
+    cls = next((n for n in do.body if isinstance(n, ast.ClassDef) and n.name == "DataFileWriter"), None)
+    if cls is None:
+        raise Unsupported("class DataFileWriter not found")
+    feeds = []
+    for m in cls.body:
+        if not isinstance(m, (ast.FunctionDef, ast.AsyncFunctionDef)) or m.name in ("open", "close"):
+            continue
+        bad = _durability_calls_in(m, "self._writer.close")
+        if bad:
+            raise Unsupported(f"DataFileWriter.{m.name}: durability call {bad[0]} outside open / close: what close() must still flush "
+                              f"would depend on how much was written (the model's data writer syncs once, after the last burst)")
+        for n in ast.walk(m):
+            if isinstance(n, ast.Call) and _call_name(n).startswith("self._writer."):
+                if _call_name(n) != "self._writer.write_batch":
+                    raise Unsupported(f"DataFileWriter.{m.name}: {_call_name(n)} (only write_batch feeds the arrow writer in the subset)")
+                feeds.append(m.name)
+    if set(feeds) != {"write_batch"}:
+        raise Unsupported(f"DataFileWriter: the arrow writer is fed from {sorted(set(feeds))}, expected write_batch only")
+    return ["Write tmp b"]
+
+
 def _dir_fsync_unsupported_pin(sb: ast.Module) -> None:
     """dir_fsync_unsupported(exc) may say True only for `unsupported here`: Windows, or an errno from the fixed set."""
     fn = find_function(sb, "dir_fsync_unsupported", None)
@@ -395,6 +461,7 @@ def gen(src: str) -> str:
     calls = _ordered_calls(strip_docstring(wf.body))
     seq_wf = _sequence(calls, temp_vars=set(), final_vars={"full_path"}, dir_vars={"dir_path"}, writer_close=None)
     err_wf = _check_error_paths(wf, "LocalStorageBackend.write_file", {"dir_path"}, {"temp_path"}, None)
+    _check_guards(wf, "LocalStorageBackend.write_file", set(), set(), None)
     _dir_fsync_unsupported_pin(sb)
 
     # ---- DataFileWriter.open (local branch) + close
@@ -409,6 +476,9 @@ def gen(src: str) -> str:
     seq_dw = _sequence(ocalls + ccalls, temp_vars={"self._temp_file.name", "temp_name"}, final_vars={"self.file_path"},
                        dir_vars={"dir_path"}, writer_close="self._writer.close")
     err_dw = _check_error_paths(cl, "DataFileWriter.close", {"dir_path"}, {"temp_name"}, "self._writer.close")
+    _check_guards(op, "DataFileWriter.open", {"self.file_format == FileFormat.PARQUET", "self._filesystem"}, set(), "self._writer.close")
+    _check_guards(cl, "DataFileWriter.close", {"self._temp_file"}, {"not self._writer"}, "self._writer.close")
+    burst = _writer_write_path(do)
 
     # ---- golden order of the commit's steps (modelled by hand)
     _require_order(find_function(tx, "append_data", "Transaction"), "Transaction.append_data", "_register_inflight", "write_data_file")
@@ -434,6 +504,10 @@ def gen(src: str) -> str:
            "",
            _render("gen_write_file", seq_wf, "LocalStorageBackend.write_file: calls on os / tempfile in program order"),
            _render("gen_data_writer", seq_dw, "DataFileWriter.open (local branch) + close: calls on os / tempfile / the parquet writer in program order"),
+           "(* DataFileWriter.write_batch (reached from write_records / write_pandas): what ONE self._writer.write_batch(...) does to the\n"
+           "   temp file; no method other than open / close makes a durability call (checked by the translator, fail closed) *)",
+           f"Definition gen_data_writer_burst (tmp : path) (b : content) : list call := [{'; '.join(burst)}].",
+           "",
            "(* ERROR PATHS.  How many of the calls, counted from the first, raise to the caller when the OS refuses them\n"
            "   (every enclosing `try` lets the failure out; a swallowed OSError is rejected by the translator) ... *)",
            f"Definition gen_write_file_fallible : nat := {len(seq_wf)}%nat.",
